@@ -392,7 +392,11 @@ func runWaitOnce(c WaitCase) (fail *evid.Failure, missed bool) {
 	}
 	if len(reqs) >= 2 {
 		evid.NonTrivialKey("wait", fmt.Sprintf("%+v", c))
-		evid.Sample("wait", c)
+		if c.Real {
+			evid.Sample("wait-real-constants", c)
+		} else if evid.ShardIdx == 0 {
+			evid.Sample("wait", c)
+		}
 	}
 	return nil, false
 }
